@@ -421,6 +421,46 @@ def run(ctx):
         except Raised as e:
             got_ = f"raises {e.exc_name}"
         r4.check(got_ == [("fruits", "jr://file-csv/fruits.csv")], f"pulldata[{desc_}]", "declares the csv instance `fruits`", gp.loc(), why_fail=repr(got_))
+    # every subset of the cells that can carry a pulldata() call, each naming its own file: each file is declared
+    import itertools as _itp9
+    CELLS9 = {"calculate": ("bind", "calculate", "pulldata('f_calc', 'n', 'k', 1)"), "constraint": ("bind", "constraint", ". = pulldata('f_cons', 'n', 'k', 1)"),
+              "relevant": ("bind", "relevant", "pulldata('f_rel', 'n', 'k', 1) = 'x'"), "choice_filter": (None, "choice_filter", "name = pulldata('f_filter', 'n', 'k', 1)"),
+              "default": (None, "default", "pulldata('f_default', 'n', 'k', 1)")}
+    bad9 = []
+    n9 = 0
+    for r_ in range(1, len(CELLS9) + 1):
+        for combo_ in _itp9.combinations(CELLS9, r_):
+            kw9 = {"choice_filter": None, "default": None, "bind": {"type": "string"}}
+            want9 = []
+            for c_ in combo_:
+                grp_, key_, text_ = CELLS9[c_]
+                if grp_:
+                    kw9[grp_][key_] = text_
+                else:
+                    kw9[key_] = text_
+                want9.append(text_.split("pulldata('")[1].split("'")[0])
+            it.reset([])
+            el9 = _mk(ctx, repo.cls("pyxform.question:InputQuestion"), "q", parent=Obj(None, {"type": "survey", "name": "data"}, name="data"), **kw9)
+            try:
+                got9 = sorted(i_.get("name") for i_ in it.call_function(gp, [], {"element": el9}, None, gp.node))
+            except Raised as e:
+                got9 = f"raises {e.exc_name}"
+            n9 += 1
+            if got9 != sorted(want9):
+                bad9.append(f"{combo_}: {got9}")
+    r4.check(not bad9 and n9 == 31, "pulldata[every subset of calculate / constraint / relevant / choice_filter / default]", "each cell's file is declared, whatever the other cells hold", gp.loc(), why_fail="; ".join(bad9[:3]))
+    # file names with dots (a version, a date) are ids like any other: nothing is cut off
+    for nm9 in ("hh.2024", "villages.v2", "lookup.main.final"):
+        it.reset([])
+        el9 = _mk(ctx, repo.cls("pyxform.question:InputQuestion"), "q", parent=Obj(None, {"type": "survey", "name": "data"}, name="data"), choice_filter=None, default=None,
+                  bind={"calculate": f"pulldata('{nm9}', 'n', 'k', 1)"})
+        got9 = sorted((i_.get("name"), i_.get("src")) for i_ in it.call_function(gp, [], {"element": el9}, None, gp.node))
+        r4.check(got9 == [(nm9, f"jr://file-csv/{nm9}.csv")], f"pulldata[file named {nm9}]", "the instance id is the name as written", gp.loc(), why_fail=repr(got9))
+        for typ9, want9 in (("xml-external", f"jr://file/{nm9}.xml"), ("csv-external", f"jr://file-csv/{nm9}.csv")):
+            it.reset([])
+            ex9 = _mk(ctx, ecls, nm9, type=typ9, parent=Obj(None, {"type": "survey", "name": "data"}, name="data"))
+            inf9 = it.call_function(ge, [], {"element": ex9}, None, ge.node)
+            r4.check(isinstance(inf9, dict) and inf9.get("name") == nm9 and inf9.get("src") == want9, f"{typ9}[named {nm9}]", f"id {nm9}, src {want9}", ge.loc(), why_fail=repr(inf9))
     pulldata_text_obligations(ctx, r4, "C09.R4")
     # the last-saved instance is declared for every question kind and every cell kind that can carry
     # ${last-saved#name}: default, choice_filter (ordinary AND external selects: the latter are input questions whose
